@@ -533,6 +533,9 @@ func checkC01(p *core.Program, r *core.Report) {
 	r.Rule(R7, "the SKI under which a connection is created - and the trust predicates are asked about - is the peer's proven one: extracted from the first certificate of this connection's TLS state, bound to that certificate's public key, compared with the dialled SKI on every dial attempt, with every refusing branch closing the socket (rules shared with C02.R1/R2/R4)")
 	importRules(p, r, "C02", map[string]string{"C02.R1 identity-provenance": R7, "C02.R2 refusal-order": R7, "C02.R4 ski-bound-to-key": R7}, nil)
 	r.Floor(R7, 10)
+	const R9 = "C01.R9 only-specified-transitions"
+	r.Rule(R9, "every transition of the extracted automaton is one of the SHIP state graph for that role (shared with C04.R1): an extra edge - e.g. a prolongation that re-enters ready-init - opens a state in which the user's cancel is ignored, after which the handshake of the cancelled SKI goes on to hello-ok")
+	importRules(p, r, "C04", map[string]string{"C04.R1 edge-containment": R9}, nil)
 	const R8 = "C01.R8 no-dial-permission-from-a-handshake-state"
 	r.Rule(R8, "no handshake state other than the one a connection starts in is mapped to ConnectionStateQueued, the marker the dial filters accept like a registration (shared with C18.R3): otherwise an inbound connection of a SKI nobody registered leaves the marker behind, the hub dials that SKI in the client role - where the trust gate does not apply - completes and persists trust")
 	importRules(p, r, "C18", map[string]string{"C18.R3 one-total-mapping": R8}, func(key string) bool {
